@@ -9,9 +9,10 @@
   2. `P_C01_iff`, `C01_fields`: the conclusion unfolded into the fields the property's text lists.
   3. source level: `encode1_src_struct` (single-packet overload), `decodeSeq_src` (the per-call decoder theorem iterated over any
      sequence of buffers — `TableReg` re-established), `C01_src_roundtrip` / `C01_src_roundtrip_single` (translated encoder, then
-     translated decoder on each frame, returns the sent packets) for `max < 2^31`, and the NEGATIVE `C01_src_fails_2GiB`: for
-     `DataContext{min = max = 2^31 + 8}` (inside the property's "every frame-size configuration") the translated decoder
-     returns NOTHING for every frame the translated encoder produced.
+     translated decoder on each frame, returns the sent packets) for every configuration with `max < 2^32` (the bound of the
+     ENCODER theorems; the decoder half `decode_frames_src` has no bound on `max`), and `C01_src_roundtrip_from_2GiB`: the
+     configurations `2^31 + 8 ≤ min ≤ max < 2^32` (e.g. `DataContext{min = max = 2^31 + 8}`), on which the translated decoder
+     returned NOTHING while it kept the remaining size in an `int`, round-trip like all others.
   4. instances: segmented status packet at max = 25, mixed aggregated batch at max = 1500, negative instances, and the
      witness `can_error_flag_lost` (a CAN message with an error flag does not survive the round trip).
 -/
@@ -582,12 +583,12 @@ theorem decode_stReg (N : Nat) (d : DecState) (b : Bytes) (h : StReg N d) :
     per-call theorem can now be iterated from the registered statements alone -/
 theorem decode_total_src_reg (t : Table) (pre b post : Bytes) (fuel N : Nat)
     (hT : TableOk t) (hR : TblReg N t) (hN : N + 65536 < 2 ^ 64) (hpre : 0 < pre.length) (h8 : 8 ≤ b.length)
-    (hlen : b.length < 2 ^ 31) (hmem : (pre ++ b ++ post).length < 2 ^ 63) (hf : b.length ≤ fuel) :
+    (hmem : (pre ++ b ++ post).length < 2 ^ 63) (hf : b.length ≤ fuel) :
     ∃ t' outs, Decoder_decode_obj fuel (tblSt t) (pre ++ b ++ post) pre.length b.length (SrcTec.tecmpExt fuel) =
         some (tblSt t', outs) ∧
       TableOk t' ∧ TblReg (N + b.length) t' ∧ t'.abs = (decode t.abs (some b)).1 ∧
       outs.map (Sum.elim toPacket SrcTec.tAbs) = (decode t.abs (some b)).2 := by
-  obtain ⟨t1, o1, h1, hT1, habs1, ho1⟩ := decode_total_src t pre b post fuel hT (tblReg_to_TableReg N t hR hN) hpre h8 hlen
+  obtain ⟨t1, o1, h1, hT1, habs1, ho1⟩ := decode_total_src t pre b post fuel hT (tblReg_to_TableReg N t hR hN) hpre h8
     hmem hf
   refine ⟨t1, o1, h1, hT1, ?_, habs1, ho1⟩
   rw [tblReg_iff _ _ hT1, habs1]
@@ -607,11 +608,11 @@ def srcDecodeSeq {F : Type} (fuel : Nat) (ext : Bytes → Nat → Nat → List F
       | none => none
       | some (s2, o2) => some (s2, o1 ++ o2)
 
-/-- `decode_total_src` iterated: ANY sequence of buffers (CMP frames, TECMP messages, garbage) of 8 .. 2^31-1 bytes each, from any
+/-- `decode_total_src` iterated: ANY sequence of buffers (CMP frames, TECMP messages, garbage) of 8 bytes or more each, from any
     table satisfying the invariants: the translated decoder is defined on every one of them and delivers, in total, exactly what
     the decoder model delivers; table invariant and register bounds hold again afterwards (so the theorem composes) -/
 theorem decodeSeq_src (fuel : Nat) : ∀ (bs : List Bytes) (t : Table) (pre post : Bytes) (N : Nat),
-    TableOk t → TblReg N t → 0 < pre.length → (∀ b ∈ bs, 8 ≤ b.length ∧ b.length < 2 ^ 31 ∧ b.length ≤ fuel) →
+    TableOk t → TblReg N t → 0 < pre.length → (∀ b ∈ bs, 8 ≤ b.length ∧ b.length ≤ fuel) →
     (pre ++ bs.flatten ++ post).length < 2 ^ 63 → N + bs.flatten.length + 65536 < 2 ^ 64 →
     ∃ t' outs, srcDecodeSeq fuel (SrcTec.tecmpExt fuel) (pre ++ bs.flatten ++ post) (tblSt t) pre.length (bs.map List.length)
         = some (tblSt t', outs) ∧
@@ -631,9 +632,9 @@ theorem decodeSeq_src (fuel : Nat) : ∀ (bs : List Bytes) (t : Table) (pre post
       simp only [List.flatten_cons, List.append_assoc]
     have hfl : (b :: bs).flatten.length = b.length + bs.flatten.length := by
       simp only [List.flatten_cons, List.length_append]
-    obtain ⟨hb8, hb31, hbf⟩ := hb b (by simp)
+    obtain ⟨hb8, hbf⟩ := hb b (by simp)
     obtain ⟨t1, o1, h1, hT1, habs1, ho1⟩ := decode_total_src t pre b (bs.flatten ++ post) fuel hT
-      (tblReg_to_TableReg N t hR (by omega)) hpre hb8 hb31 (by rw [← e1]; exact hmem) hbf
+      (tblReg_to_TableReg N t hR (by omega)) hpre hb8 (by rw [← e1]; exact hmem) hbf
     have hR1 : TblReg (N + b.length) t1 := by
       rw [tblReg_iff _ _ hT1, habs1]
       exact decode_stReg N _ b ((tblReg_iff N t hT).mp hR)
@@ -672,12 +673,13 @@ theorem frame_sizes (e : Enc) (batch : List Packet) (c : Ctx) (hc : c.ok = true)
   rw [bytes_length]
   omega
 
-/-- the decoding half, for the frames of the encoder MODEL laid out in memory -/
+/-- the decoding half, for the frames of the encoder MODEL laid out in memory: EVERY configuration (no bound on `max`), the
+    fuel of the translated loops covering one frame -/
 theorem decode_frames_src (e : Enc) (t : Table) (batch : List Packet) (c : Ctx) (v fuel N : Nat) (pre post : Bytes)
-    (hc : c.ok = true) (hmax : c.max < 2 ^ 31) (hne : batch ≠ [])
+    (hc : c.ok = true) (hne : batch ≠ [])
     (hok : ∀ p ∈ batch, PacketOk p) (hver : ∀ p ∈ batch, p.version = v)
     (hdev : e.dev < 65536) (hstream : e.stream < 256)
-    (hT : TableOk t) (hR : TblReg N t) (hpre : 0 < pre.length) (hf : 2 ^ 31 ≤ fuel)
+    (hT : TableOk t) (hR : TblReg N t) (hpre : 0 < pre.length) (hf : c.max ≤ fuel)
     (frames : List Bytes) (hfr : frames = (e.encode batch c).2.map (EFrame.bytes c.min))
     (hmem : (pre ++ frames.flatten ++ post).length < 2 ^ 63) (hN : N + frames.flatten.length + 65536 < 2 ^ 64) :
     ∃ t' outs, srcDecodeSeq fuel (SrcTec.tecmpExt fuel) (pre ++ frames.flatten ++ post) (tblSt t) pre.length
@@ -698,17 +700,18 @@ theorem decode_frames_src (e : Enc) (t : Table) (batch : List Packet) (c : Ctx) 
 
 /-- C01 END TO END ON THE TRANSLATED SOURCE, iterator-range overloads of `Encoder::encode` (range of `Packet`, range of
     `shared_ptr<Packet>`): for every encoder object (ids and counter within their C types), every non-empty batch of the property's
-    domain with one version, every configuration `25 ≤ max`, `min ≤ max` with `max < 2^31` (THE NARROWING: `Decoder::decode`
-    keeps the remaining size in an `int`; see `C01_src_fails_2GiB` for what happens above), every decoder table satisfying the
+    domain with one version, every configuration `25 ≤ max`, `min ≤ max` with `max < 2^32` (the bound of the translated
+    ENCODER's theorem `encodeRange_src_struct`; the decoder half needs none since `Decoder::decode` keeps the remaining size in
+    a `std::size_t`), fuel for the encoder's loops (2^16) and for one frame (`max`), every decoder table satisfying the
     invariants (any history), the frames lying anywhere in an address space that holds them (non-null: `pre` non-empty):
     the translated encoder is defined and returns frames on which the translated decoder, called frame by frame, is defined and
     returns packets that are the sent ones (`P_C01`); nothing stays pending on the encoder's endpoint; the decoder's invariants
     hold again -/
 theorem C01_src_roundtrip (e : Enc) (t : Table) (batch : List Packet) (c : Ctx) (v fuel N : Nat) (pre post : Bytes)
-    (hc : c.ok = true) (hmax : c.max < 2 ^ 31) (hne : batch ≠ [])
+    (hc : c.ok = true) (hmax : c.max < 2 ^ 32) (hne : batch ≠ [])
     (hok : ∀ p ∈ batch, PacketOk p) (hver : ∀ p ∈ batch, p.version = v)
     (hdev : e.dev < 65536) (hstream : e.stream < 256) (hq : e.seqc < 65536)
-    (hT : TableOk t) (hR : TblReg N t) (hpre : 0 < pre.length) (hf : 2 ^ 31 ≤ fuel) :
+    (hT : TableOk t) (hR : TblReg N t) (hpre : 0 < pre.length) (hf : 65536 ≤ fuel) (hfm : c.max ≤ fuel) :
     ∃ s' frames,
       Encoder_encode_range_obj fuel (ofLL e.toLL) (batch.map pktIn) c.min c.max = some (s', frames) ∧
       Encoder_encode_ptrRange_obj fuel (ofLL e.toLL) (batch.map pktIn) c.min c.max = some (s', frames) ∧
@@ -718,9 +721,9 @@ theorem C01_src_roundtrip (e : Enc) (t : Table) (batch : List Packet) (c : Ctx) 
               (frames.map List.length) = some (tblSt t', outs) ∧
           TableOk t' ∧ TblReg (N + frames.flatten.length) t' ∧ t'.find (e.dev, e.stream) = none ∧
           P_C01 e.dev e.stream batch (outs.map (Sum.elim toPacket SrcTec.tAbs)) = true) := by
-  obtain ⟨s', h1, h2, _⟩ := encodeRange_src_struct e batch c fuel hc (by omega) (fun p hp => (hok p hp).enc) hq (by omega)
+  obtain ⟨s', h1, h2, _⟩ := encodeRange_src_struct e batch c fuel hc hmax (fun p hp => (hok p hp).enc) hq hf
   refine ⟨s', _, h1, h2, ?_, fun hmem hN =>
-    decode_frames_src e t batch c v fuel N pre post hc hmax hne hok hver hdev hstream hT hR hpre hf _ rfl hmem hN⟩
+    decode_frames_src e t batch c v fuel N pre post hc hne hok hver hdev hstream hT hR hpre hfm _ rfl hmem hN⟩
   intro hnil
   have r1 := (C01_roundtrip_spec e DecState.empty batch c v hc hne hok hver hdev hstream).1
   rw [hnil] at r1
@@ -730,9 +733,9 @@ theorem C01_src_roundtrip (e : Enc) (t : Table) (batch : List Packet) (c : Ctx) 
 
 /-- the same through the single-packet overload `Encoder::encode(const Packet&, const DataContext&)` (batches of one packet) -/
 theorem C01_src_roundtrip_single (e : Enc) (t : Table) (p : Packet) (c : Ctx) (fuel N : Nat) (pre post : Bytes)
-    (hc : c.ok = true) (hmax : c.max < 2 ^ 31) (hok : PacketOk p)
+    (hc : c.ok = true) (hmax : c.max < 2 ^ 32) (hok : PacketOk p)
     (hdev : e.dev < 65536) (hstream : e.stream < 256) (hq : e.seqc < 65536)
-    (hT : TableOk t) (hR : TblReg N t) (hpre : 0 < pre.length) (hf : 2 ^ 31 ≤ fuel) :
+    (hT : TableOk t) (hR : TblReg N t) (hpre : 0 < pre.length) (hf : 65536 ≤ fuel) (hfm : c.max ≤ fuel) :
     ∃ s' frames,
       Encoder_encode_obj fuel (ofLL e.toLL) (pktIn p) c.min c.max = some (s', frames) ∧
       ((pre ++ frames.flatten ++ post).length < 2 ^ 63 → N + frames.flatten.length + 65536 < 2 ^ 64 →
@@ -740,17 +743,17 @@ theorem C01_src_roundtrip_single (e : Enc) (t : Table) (p : Packet) (c : Ctx) (f
               (frames.map List.length) = some (tblSt t', outs) ∧
           TableOk t' ∧ TblReg (N + frames.flatten.length) t' ∧ t'.find (e.dev, e.stream) = none ∧
           P_C01 e.dev e.stream [p] (outs.map (Sum.elim toPacket SrcTec.tAbs)) = true) := by
-  obtain ⟨s', h1, _⟩ := encode1_src_struct e p c fuel hc (by omega) hok.enc hq (by omega)
+  obtain ⟨s', h1, _⟩ := encode1_src_struct e p c fuel hc hmax hok.enc hq hf
   have hok' : ∀ x ∈ [p], PacketOk x := by intro x hx; rw [List.mem_singleton] at hx; subst hx; exact hok
   have hver : ∀ x ∈ [p], x.version = p.version := by intro x hx; rw [List.mem_singleton] at hx; subst hx; rfl
   exact ⟨s', _, h1, fun hmem hN =>
-    decode_frames_src e t [p] c p.version fuel N pre post hc hmax (by simp) hok' hver hdev hstream hT hR hpre hf _ rfl hmem hN⟩
+    decode_frames_src e t [p] c p.version fuel N pre post hc (by simp) hok' hver hdev hstream hT hR hpre hfm _ rfl hmem hN⟩
 
 /-- a fresh decoder, the frames alone in memory behind one byte: only the address-space bound remains -/
 theorem C01_src_roundtrip_fresh (e : Enc) (batch : List Packet) (c : Ctx) (v fuel : Nat)
-    (hc : c.ok = true) (hmax : c.max < 2 ^ 31) (hne : batch ≠ [])
+    (hc : c.ok = true) (hmax : c.max < 2 ^ 32) (hne : batch ≠ [])
     (hok : ∀ p ∈ batch, PacketOk p) (hver : ∀ p ∈ batch, p.version = v)
-    (hdev : e.dev < 65536) (hstream : e.stream < 256) (hq : e.seqc < 65536) (hf : 2 ^ 31 ≤ fuel) :
+    (hdev : e.dev < 65536) (hstream : e.stream < 256) (hq : e.seqc < 65536) (hf : 65536 ≤ fuel) (hfm : c.max ≤ fuel) :
     ∃ s' frames,
       Encoder_encode_range_obj fuel (ofLL e.toLL) (batch.map pktIn) c.min c.max = some (s', frames) ∧
       (frames.flatten.length + 1 < 2 ^ 63 →
@@ -758,115 +761,52 @@ theorem C01_src_roundtrip_fresh (e : Enc) (batch : List Packet) (c : Ctx) (v fue
               (frames.map List.length) = some (tblSt t', outs) ∧
           P_C01 e.dev e.stream batch (outs.map (Sum.elim toPacket SrcTec.tAbs)) = true) := by
   obtain ⟨s', frames, h1, _, _, h4⟩ := C01_src_roundtrip e [] batch c v fuel 0 [0] [] hc hmax hne hok hver hdev hstream hq
-    tableOk_empty (by intro x hx; cases hx) (by decide) hf
+    tableOk_empty (by intro x hx; cases hx) (by decide) hf hfm
   refine ⟨s', frames, h1, fun hm => ?_⟩
   obtain ⟨t', outs, k1, _, _, _, k5⟩ := h4 (by simp only [List.length_append, List.length_singleton, List.length_nil]; omega)
     (by omega)
   exact ⟨t', outs, k1, k5⟩
 
-/-! ### 3e. … and above 2 GiB they do NOT -/
+/-! ### 3e. … also above 2 GiB -/
 
-/-- a CMP frame of 2^31+8 .. 2^32+7 bytes: `int curSize = static_cast<int>(size - sizeof(CmpHeader))` is negative, the message
-    loop is not entered: the translated `Decoder::decode` returns no packet and does not touch the table -/
-theorem decode_src_huge {F : Type} (s : Decoder_St) (pre b post : Bytes) (fuel : Nat) (ext : Bytes → Nat → Nat → List F)
-    (hpre : 0 < pre.length) (h0 : byteAt b 0 ≠ 0) (hlo : 2 ^ 31 + 8 ≤ b.length) (hhi : b.length < 2 ^ 32 + 8)
-    (hf : 1 ≤ fuel) :
-    Decoder_decode_obj fuel s (pre ++ b ++ post) pre.length b.length ext = some (s, []) := by
-  have h8 : 8 ≤ b.length := by omega
-  have hpre0 : (pre.length == 0) = false := by simpa using Nat.ne_of_gt hpre
-  have hb0 : (byteAt b 0 == 0) = false := by simpa using h0
-  have hcur : usub 64 b.length 8 % 4294967296 = b.length - 8 := by
-    unfold usub
-    have : b.length + 2 ^ 64 - 8 = (b.length - 8) + 2 ^ 64 := by omega
-    rw [this, Nat.add_mod_right, Nat.mod_eq_of_lt (by omega)]; exact Nat.mod_eq_of_lt (by omega)
-  have hrd : Src.rd (pre ++ b ++ post) pre.length 1 = some (byteAt b 0) := by
-    rw [SrcTie.rd_mid0 pre b post 1 (by omega), SrcTie.leAt_one]
-  have hlt8 : ¬ b.length < 8 := by omega
-  have hne0 : ((b.length - 8) == 0) = false := by simpa using (by omega : b.length - 8 ≠ 0)
-  have hslt : slt 32 0 (b.length - 8) = false := by
-    unfold slt toInt
-    have h1 : ¬ b.length - 8 < 2 ^ (32 - 1) := by simp only [Nat.reduceSub]; omega
-    rw [if_pos (by decide), if_neg h1]
-    simp only [decide_eq_false_iff_not]
-    omega
-  obtain ⟨fuel', rfl⟩ : ∃ k, fuel = k + 1 := ⟨fuel - 1, by omega⟩
-  unfold Decoder_decode_obj
-  simp only [hpre0, Bool.false_eq_true, if_false, hlt8, decide_false, bind, pure, hrd, SrcTie.some_bind, hb0,
-    getDeviceId_mid pre b post h8, getStreamId_mid pre b post h8, nonneg_one, hcur, Nat.one_mul, hne0]
-  rw [Decoder_decode_loop1]
-  simp only [hslt, Bool.false_eq_true, if_false, pure, SrcTie.some_bind]
-
-theorem decodeSeq_huge {F : Type} (fuel : Nat) (ext : Bytes → Nat → Nat → List F) (s : Decoder_St) (hf : 1 ≤ fuel) :
-    ∀ (bs : List Bytes) (pre post : Bytes), 0 < pre.length →
-      (∀ b ∈ bs, byteAt b 0 ≠ 0 ∧ 2 ^ 31 + 8 ≤ b.length ∧ b.length < 2 ^ 32 + 8) →
-      srcDecodeSeq fuel ext (pre ++ bs.flatten ++ post) s pre.length (bs.map List.length) = some (s, []) := by
-  intro bs
-  induction bs with
-  | nil => intro _ _ _ _; rfl
-  | cons b bs ih =>
-    intro pre post hpre hb
-    have e1 : pre ++ (b :: bs).flatten ++ post = pre ++ b ++ (bs.flatten ++ post) := by
-      simp only [List.flatten_cons, List.append_assoc]
-    have e2 : pre ++ (b :: bs).flatten ++ post = (pre ++ b) ++ bs.flatten ++ post := by
-      simp only [List.flatten_cons, List.append_assoc]
-    obtain ⟨hb0, hlo, hhi⟩ := hb b (by simp)
-    have h1 := decode_src_huge s pre b (bs.flatten ++ post) fuel ext hpre hb0 hlo hhi hf
-    have h2 := ih (pre ++ b) post (by rw [List.length_append]; omega) (fun x hx => hb x (by simp [hx]))
-    rw [List.length_append] at h2
-    rw [List.map_cons, srcDecodeSeq, e1, h1]
-    dsimp only
-    rw [← e1, e2, h2]
-    rfl
-
-/-- THE PROPERTY'S TEXT FAILS ON THE SOURCE for frame-size configurations from 2 GiB: for EVERY non-empty batch of the domain,
-    every encoder object and every `DataContext` with `2^31 + 8 ≤ min ≤ max < 2^32` (so `25 ≤ max`, `min ≤ max`: inside the
-    property's "every frame-size configuration"; e.g. min = max = 2^31 + 8), the translated encoder is defined and returns at least
-    one frame, and the translated decoder — any state `s`, any TECMP decoder, the frames anywhere in memory — is defined on every
-    one of these frames and returns NO packet at all, so the decoded list is not the sent one.  (`C01_roundtrip` claims the
-    round trip for these `c` on the hand model, whose remaining size is a `Nat`.) -/
-theorem C01_src_fails_2GiB {F : Type} (e : Enc) (s : Decoder_St) (batch : List Packet) (c : Ctx) (v fuel : Nat)
-    (pre post : Bytes) (ext : Bytes → Nat → Nat → List F)
+/-- THE CONFIGURATIONS ON WHICH THE SOURCE USED TO FAIL: for EVERY non-empty batch of the domain, every encoder object and every
+    `DataContext` with `2^31 + 8 ≤ min ≤ max < 2^32` (so `25 ≤ max`, `min ≤ max`: inside the property's "every frame-size
+    configuration"; e.g. min = max = 2^31 + 8) — every frame is then 2^31 + 8 bytes or longer — the translated encoder is defined
+    and returns at least one frame, and the translated decoder, from any table satisfying the invariants, is defined on every one
+    of these frames and returns the sent packets.  While `Decoder::decode` narrowed the remaining size to `int` it returned NO
+    packet at all on these frames (the theorem in this place was the negative `C01_src_fails_2GiB`, same hypotheses on `c`).
+    An instance of `C01_src_roundtrip`: nothing distinguishes these configurations any more. -/
+theorem C01_src_roundtrip_from_2GiB (e : Enc) (t : Table) (batch : List Packet) (c : Ctx) (v fuel N : Nat)
+    (pre post : Bytes)
     (hmin : 2 ^ 31 + 8 ≤ c.min) (hmm : c.min ≤ c.max) (hmax : c.max < 2 ^ 32) (hne : batch ≠ [])
     (hok : ∀ p ∈ batch, PacketOk p) (hver : ∀ p ∈ batch, p.version = v)
     (hdev : e.dev < 65536) (hstream : e.stream < 256) (hq : e.seqc < 65536)
-    (hpre : 0 < pre.length) (hf : 65536 ≤ fuel) :
+    (hT : TableOk t) (hR : TblReg N t) (hpre : 0 < pre.length) (hf : c.max ≤ fuel) :
     c.ok = true ∧
     ∃ s' frames,
       Encoder_encode_range_obj fuel (ofLL e.toLL) (batch.map pktIn) c.min c.max = some (s', frames) ∧
-      frames ≠ [] ∧
-      srcDecodeSeq fuel ext (pre ++ frames.flatten ++ post) s pre.length (frames.map List.length) = some (s, []) ∧
-      P_C01 e.dev e.stream batch (([] : List (PktOut ⊕ F)).map (Sum.elim toPacket (fun _ => default))) = false := by
+      frames ≠ [] ∧ (∀ b ∈ frames, 2 ^ 31 + 8 ≤ b.length) ∧
+      ((pre ++ frames.flatten ++ post).length < 2 ^ 63 → N + frames.flatten.length + 65536 < 2 ^ 64 →
+        ∃ t' outs, srcDecodeSeq fuel (SrcTec.tecmpExt fuel) (pre ++ frames.flatten ++ post) (tblSt t) pre.length
+              (frames.map List.length) = some (tblSt t', outs) ∧
+          TableOk t' ∧ TblReg (N + frames.flatten.length) t' ∧ t'.find (e.dev, e.stream) = none ∧
+          P_C01 e.dev e.stream batch (outs.map (Sum.elim toPacket SrcTec.tAbs)) = true) := by
   have hc : c.ok = true := by
     unfold Ctx.ok
     simp only [Bool.and_eq_true, decide_eq_true_eq]
     omega
   refine ⟨hc, ?_⟩
-  obtain ⟨s', h1, _, _⟩ := encodeRange_src_struct e batch c fuel hc hmax (fun p hp => (hok p hp).enc) hq hf
-  have hwf : ∀ p ∈ batch, p.WF := fun p hp => (WF_iff_PacketOk p).mpr (hok p hp)
-  have hcap := (Ctx.ok_cap hc).1
-  obtain ⟨p0, hp0⟩ := List.exists_mem_of_ne_nil batch hne
-  obtain ⟨_, _, _, _, _, _, _, hv1, hv2, _⟩ := C01.wf_unpack (hwf p0 hp0)
-  rw [hver p0 hp0] at hv1 hv2
-  have hg := C01.encode_good e batch c v hcap hwf hver hv2
-  have hsz := frame_sizes e batch c hc
-  refine ⟨s', _, h1, ?_, ?_, ?_⟩
-  · intro hnil
-    have r1 := (C01_roundtrip_spec e DecState.empty batch c v hc hne hok hver hdev hstream).1
-    rw [hnil] at r1
-    have := ((P_C01_iff _ _ _ _).mp r1).1
-    simp only [List.map_nil, decodeAll, List.length_nil] at this
-    exact hne (List.length_eq_zero_iff.mp this.symm)
-  · apply decodeSeq_huge fuel ext s (by omega) _ pre post hpre
-    intro b hb
-    have hb' := hsz b hb
-    obtain ⟨f, hfm, rfl⟩ := List.mem_map.mp hb
-    refine ⟨?_, by omega, by omega⟩
-    rw [C09b.byte0, (hg.1 f hfm).toHdrOk.ver, Nat.mod_eq_of_lt hv2]
-    omega
-  · unfold P_C01
-    cases batch with
-    | nil => exact absurd rfl hne
-    | cons p ps => rfl
+  obtain ⟨s', frames, h1, _, h3, h4⟩ := C01_src_roundtrip e t batch c v fuel N pre post hc hmax hne hok hver hdev hstream hq
+    hT hR hpre (by omega) hf
+  obtain ⟨s'', k1, _, _⟩ := encodeRange_src_struct e batch c fuel hc hmax (fun p hp => (hok p hp).enc) hq (by omega)
+  have hfr : frames = (e.encode batch c).2.map (EFrame.bytes c.min) := by
+    rw [h1] at k1
+    exact (Prod.mk.inj (Option.some.inj k1)).2
+  refine ⟨s', frames, h1, h3, ?_, h4⟩
+  intro b hb
+  rw [hfr] at hb
+  have := frame_sizes e batch c hc b hb
+  omega
 
 /-! ### 3f. the record `pktIn p` the encoder theorems take IS what the translated `Packet` getters return -/
 
@@ -1030,28 +970,36 @@ theorem eth_error_flag_lost :
 /-! ### (v) the hypotheses of the source-level theorems are satisfiable -/
 
 /-- the mixed batch through the translated range overloads and the translated decoder, fresh decoder -/
-example := C01_src_roundtrip_fresh exEnc exBatch exCtx1500 1 (2 ^ 31) (by decide) (by decide) (by decide) exBatch_ok
-  (by decide) (by decide) (by decide) (by decide) (Nat.le_refl _)
+example := C01_src_roundtrip_fresh exEnc exBatch exCtx1500 1 65536 (by decide) (by decide) (by decide) exBatch_ok
+  (by decide) (by decide) (by decide) (by decide) (Nat.le_refl _) (by decide)
 
 /-- the segmented status packet through the single-packet overload, a decoder with a stale reassembly on the SAME endpoint -/
 def exTable : Table := [((0x1234, 7), { payload := List.replicate 20 7, segType := 8, ver := 1, mt := 1, seq := 41 })]
 theorem exTable_ok : TableOk exTable ∧ TblReg 20 exTable := by
   refine ⟨⟨by decide, ?_⟩, ?_⟩ <;> intro x hx <;> rw [exTable, List.mem_singleton] at hx <;> subst hx <;> decide
 
-example := C01_src_roundtrip_single exEnc exTable exCm exCtx25 (2 ^ 31) 20 [0xEE] [0xEE, 0xEE] (by decide) (by decide) exCm_ok
-  (by decide) (by decide) (by decide) exTable_ok.1 exTable_ok.2 (by decide) (Nat.le_refl _)
+example := C01_src_roundtrip_single exEnc exTable exCm exCtx25 65536 20 [0xEE] [0xEE, 0xEE] (by decide) (by decide) exCm_ok
+  (by decide) (by decide) (by decide) exTable_ok.1 exTable_ok.2 (by decide) (Nat.le_refl _) (by decide)
 
-example := C01_src_roundtrip exEnc exTable exBatch exCtx1500 1 (2 ^ 31) 20 [0xEE] [] (by decide) (by decide) (by decide)
-  exBatch_ok (by decide) (by decide) (by decide) (by decide) exTable_ok.1 exTable_ok.2 (by decide) (Nat.le_refl _)
+example := C01_src_roundtrip exEnc exTable exBatch exCtx1500 1 65536 20 [0xEE] [] (by decide) (by decide) (by decide)
+  exBatch_ok (by decide) (by decide) (by decide) (by decide) exTable_ok.1 exTable_ok.2 (by decide) (Nat.le_refl _) (by decide)
 
 /-- `decodeSeq_src` on two literal buffers: a TECMP message, then a CMP frame -/
 example := decodeSeq_src 64 [SrcTec.exCanFd, SrcDec.exFrame] exTable [9] [5, 5] 20 exTable_ok.1 exTable_ok.2 (by decide)
   (by decide) (by decide) (by decide)
 
-/-- the failing configuration min = max = 2^31 + 8 = 2147483656 bytes, for the mixed batch: every hypothesis holds -/
-example := C01_src_fails_2GiB (F := Unit) exEnc Decoder_default exBatch ⟨2 ^ 31 + 8, 2 ^ 31 + 8⟩ 1 65536 [0] [] (fun _ _ _ => [])
-  (by decide) (by decide) (by decide) (by decide) exBatch_ok (by decide) (by decide) (by decide) (by decide) (by decide) (by decide)
-/-- … which the model-level theorem covers as if nothing were wrong -/
+/-- the formerly failing configuration min = max = 2^31 + 8 = 2147483656 bytes, for the mixed batch and the decoder with the
+    stale reassembly: every hypothesis of `C01_src_roundtrip_from_2GiB` and of `C01_src_roundtrip` itself holds -/
+example := C01_src_roundtrip_from_2GiB exEnc exTable exBatch ⟨2 ^ 31 + 8, 2 ^ 31 + 8⟩ 1 (2 ^ 31 + 8) 20 [0xEE] []
+  (by decide) (by decide) (by decide) (by decide) exBatch_ok (by decide) (by decide) (by decide) (by decide)
+  exTable_ok.1 exTable_ok.2 (by decide) (Nat.le_refl _)
+example := C01_src_roundtrip exEnc exTable exBatch ⟨2 ^ 31 + 8, 2 ^ 31 + 8⟩ 1 (2 ^ 31 + 8) 20 [0xEE] [] (by decide) (by decide)
+  (by decide) exBatch_ok (by decide) (by decide) (by decide) (by decide) exTable_ok.1 exTable_ok.2 (by decide) (by decide)
+  (Nat.le_refl _)
+/-- … the largest configuration the encoder theorems reach, max = 2^32 − 1 -/
+example := C01_src_roundtrip_fresh exEnc exBatch ⟨0, 2 ^ 32 - 1⟩ 1 (2 ^ 32) (by decide) (by decide) (by decide) exBatch_ok
+  (by decide) (by decide) (by decide) (by decide) (by decide) (by decide)
+/-- … in agreement with the model-level theorem, which never had a bound -/
 example := C01_roundtrip_spec exEnc DecState.empty exBatch ⟨2 ^ 31 + 8, 2 ^ 31 + 8⟩ 1 (by decide) (by decide) exBatch_ok
   (by decide) (by decide) (by decide)
 
